@@ -622,7 +622,7 @@ LOOP2_INV = [
     "0 <= len(laters) and len(laters) <= len(g_lt) and len(g_w) <= len(g_old)",
     "len(self.txPkts) == %s + %s" % (T0, Q),
     "forall(lambda k: implies(0 <= k and k < %s, self.txPkts[k] == g_old[%s + k]))" % (T0, P),
-    "forall(lambda j: implies(0 <= j and j < %s, self.txPkts[%s + j] == g_old[g_lt[j]]))" % (Q, T0),
+    "forall(lambda m: implies(%s <= m and m < %s + %s, self.txPkts[m] == g_old[g_lt[m - %s]]))" % (T0, T0, Q, T0),
     "forall(lambda k: implies(0 <= k and k < len(laters), laters[k] == g_old[g_lt[%s + k]]))" % Q,
 ]
 R = "len(laters)"                                # once: deferred duples not yet put back (taken from the back)
@@ -630,7 +630,8 @@ ONCE_INV = [
     "0 <= len(laters) and len(laters) <= len(g_lt) and len(g_w) <= len(g_old)",
     "len(self.txPkts) == (len(g_lt) - %s) + %s" % (R, T0),
     "forall(lambda k: implies(0 <= k and k < len(g_lt) - %s, self.txPkts[k] == g_old[g_lt[%s + k]]))" % (R, R),
-    "forall(lambda k: implies(0 <= k and k < %s, self.txPkts[(len(g_lt) - %s) + k] == g_old[%s + k]))" % (T0, R, P),
+    "forall(lambda m: implies(len(g_lt) - %s <= m and m < (len(g_lt) - %s) + %s, "
+    "self.txPkts[m] == g_old[%s + (m - (len(g_lt) - %s))]))" % (R, R, T0, P, R),
     "forall(lambda k: implies(0 <= k and k < %s, laters[k] == g_old[g_lt[k]]))" % R,
 ]
 WIRE_ARGS = "self.handler.wire, old(self.handler.nwire), self.handler.nwire"
